@@ -295,7 +295,14 @@ impl TypeChecker {
             },
 
             T::UserType(var, vars, span) => {
-                let ty = self.copy(self.variables[*var].ty);
+                // A type that is declared further down is still unknown here: refer to the
+                // declaration itself, a copy would be a fresh unknown that accepts anything.
+                let declared = self.variables[*var].ty;
+                let ty = if matches!(self.find_type(declared), Type::Unknown) {
+                    declared
+                } else {
+                    self.copy(declared)
+                };
                 match self.find_type(ty) {
                     Type::Blob(name, span, _, sub)
                     | Type::ExternBlob(name, span, _, sub, _)
